@@ -82,6 +82,14 @@ CURATED_COMPOSE = [
         [],
     ),
     (
+        # three producer guarantees can all be tight at one vertex of the (y1, y2) plane: tactic 5 must pick rows
+        # whose multipliers all have the right sign when refining the consumer's assumption
+        "degenerate-vertex",
+        {"in": ["x"], "out": ["y1", "y2"], "a": [{"x": 1}], "g": [{"y1": 1, "x": -1}, {"y1": 1, "y2": -1}, {"y1": 1, "y2": 1}]},
+        {"in": ["y1", "y2", "w"], "out": ["z"], "a": [{"y1": 1, "y2": 1, "w": -1}], "g": [{"z": 1, "w": -1}]},
+        [],
+    ),
+    (
         "two-eliminated",
         {"in": ["x"], "out": ["y", "w"], "a": [{"x": 1}], "g": [{"y": 1, "x": -1}, {"w": 1, "x": 1}, {"w": -1}]},
         {"in": ["y", "w"], "out": ["z"], "a": [{"y": 1, "w": 1}], "g": [{"z": 1, "y": -1, "w": -1}]},
